@@ -245,6 +245,29 @@ struct P { a: f32, b: f32, c: vec2<f32> }
   buf.data[3] = p.c.x;
 }
 """),
+("struct_ctor_store_then_fields", HDR + """
+struct Q { x: u32, y: u32 }
+@compute @workgroup_size(1) fn main() {
+  var q: Q = Q(buf.data[0], 2u);
+  buf.data[1] = q.x + q.y;
+}
+"""),
+("loop_carried_local_only_in_body", HDR + """
+@compute @workgroup_size(1) fn main() {
+  var n: u32;
+  var i: u32 = 0u;
+  loop {
+    if (i >= 3u) { break; }
+    n = n + buf.data[i];
+    buf.data[4u + i] = n;
+    continuing { i = i + 1u; }
+  }
+}
+"""),
+("nested_call_result_chain", HDR + """
+fn inc(x: u32) -> u32 { return x + 1u; }
+@compute @workgroup_size(1) fn main() { buf.data[0] = inc(inc(buf.data[1])); }
+"""),
 ("struct_local_whole_copy", HDR + """
 struct Q { x: u32, y: u32 }
 @compute @workgroup_size(1) fn main() {
